@@ -34,6 +34,7 @@ type result struct {
 type resultRequest struct {
 	create *CreateContainerRequest
 	update *UpdateContainerRequest
+	args   []string // original command line of the container being created
 }
 
 type resultReply struct {
@@ -84,6 +85,7 @@ func collectCreateContainerResult(request *CreateContainerRequest) *result {
 	return &result{
 		request: resultRequest{
 			create: request,
+			args:   slices.Clone(request.Container.Args),
 		},
 		reply: resultReply{
 			adjust: &ContainerAdjustment{
@@ -548,6 +550,15 @@ func (r *result) adjustArgs(args []string, plugin string) error {
 	if args[0] == "" {
 		r.owners.clearArgs(id)
 		args = args[1:]
+
+		if len(args) == 0 {
+			// A bare marker removes the command line set by earlier plugins
+			// without setting a new one. Nobody owns the command line and
+			// the container is back to its original one.
+			r.reply.adjust.Args = nil
+			create.Container.Args = slices.Clone(r.request.args)
+			return nil
+		}
 	}
 
 	if err := r.owners.claimArgs(id, plugin); err != nil {
